@@ -373,17 +373,25 @@ func panSvcSpace() *panSpace {
 		{[]string{"TCP-80-HTTP"}, nil},
 	}
 	// definition variants of the service 'tcp 80' itself
-	defs := []struct{ in, out string }{{"", ""}, {"<source-port>1024-65535</source-port>", ""}, {"<override><yes><timeout>30</timeout></yes></override>", ""},
-		{"", "<description>web</description>"}, {"<source-port>1024-65535</source-port>", "<description>web</description>"}}
+	// (the last two: the name 'tcp 80' defined with a protocol element the
+	// tool does not know, with two different ports)
+	type defT struct{ in, out, def string }
+	defs := []defT{{"", "", ""}, {"<source-port>1024-65535</source-port>", "", ""}, {"<override><yes><timeout>30</timeout></yes></override>", "", ""},
+		{"", "<description>web</description>", ""}, {"<source-port>1024-65535</source-port>", "<description>web</description>", ""},
+		{"", "", "sctp 2905"}, {"", "", "sctp 2906"}}
 	n := int64(len(vars))
 	nd := int64(len(defs))
 	return &panSpace{name: "svc", n: n * n * nd * nd, gen: func(i int64) (string, core.Files) {
 		da, db := defs[i%nd], defs[i/nd%nd]
 		i /= nd * nd
-		mk := func(v sv, d struct{ in, out string }) string {
+		mk := func(v sv, d defT) string {
 			r := panRuleT{"allow", "z1", "z2", []string{"a1"}, []string{"a3"}, v.srv, ""}
+			sd := map[string]string{"TCP-80-HTTP": "tcp 80", "UDP-53-DNS": "udp 53"}
+			if d.def != "" {
+				sd["tcp 80"] = d.def
+			}
 			return panConfig(panVsysT{name: "vsys1", rules: []panRuleT{r}, sgroup: v.sgroup,
-				svcDef: map[string]string{"TCP-80-HTTP": "tcp 80", "UDP-53-DNS": "udp 53"},
+				svcDef: sd,
 				svcIn: map[string]string{"tcp 80": d.in}, svcOut: map[string]string{"tcp 80": d.out}})
 		}
 		return mk(vars[i/n], da), core.Files{Main: mk(vars[i%n], db)}
